@@ -88,6 +88,7 @@ structure St where
   cur : Option Nat := none               -- `self.stream`: index into `objs`
   wsMode : Bool := false                 -- `self.connection` is an H11WSConnection
   keepAliveRequests : Nat := 0
+  requestComplete : Bool := false        -- `self.request_complete`: EndOfMessage seen for the current request
   canRead : Bool := false
   pc : Pc := .idle
   terminated : Bool := false
@@ -273,6 +274,8 @@ def onLibEvBody (cfg : Cfg) (st : St) (o0 : List Out) (e : LibEv) : Option (St Ã
   | .protoError hint =>
     let lib' := H11M.recvError st.lib
     let st := { st with lib := lib' }
+    -- unexpected data after a complete request while its stream is live: ignored, the response in progress continues
+    if st.cur.isSome && st.requestComplete then some ({ st with pc := .idle }, o0) else
     let (st, o1) :=
       if lib'.server == .idle || lib'.server == .sendResponse then
         let (st1, a, _) := libSend st (.response hint ([("content-length".b, "0".b), ("connection".b, "close".b)] ++ cfg.serverHeaders))
@@ -284,7 +287,7 @@ def onLibEvBody (cfg : Cfg) (st : St) (o0 : List Out) (e : LibEv) : Option (St Ã
     match H11M.recvRequest st.lib (reqInfo r) with
     | none => none                                  -- not a sequence h11 can produce
     | some lib' =>
-      let st := { st with lib := lib' }
+      let st := { st with lib := lib', requestComplete := false }
       match checkProtocol r with
       | .h2c =>
         let (st1, a, _) := libSend st (.info 101 (cfg.serverHeaders ++ [("connection".b, "upgrade".b), ("upgrade".b, "h2c".b)]))
@@ -342,7 +345,7 @@ def onLibEvBody (cfg : Cfg) (st : St) (o0 : List Out) (e : LibEv) : Option (St Ã
       match st.cur, st.stream with
       | some i, some (.http s) =>
         let (s', puts, _) := Http.handle s .endBody
-        some (st.setObj i (.http s'), o0 ++ puts.map (Out.putHttp i))
+        some ({ st with requestComplete := true }.setObj i (.http s'), o0 ++ puts.map (Out.putHttp i))
       | some _, some (.ws _) => none
       | _, _ => some ({ st with pc := .idle }, o0)
   | .wsData _ evs =>
